@@ -94,6 +94,12 @@ def configs(tier, rng):
     for NP in (2, 3, 4):
         for rff in (False, True):
             C.append(dict(base, NP=NP, NL=1, TEND=4 * 2 * NP, JAC=False, RFF=rff, MAXR=3, seed=rng.randint(0, 999), pconv=50, prs=25, pdt=40))
+    # restart_from_first_step with all steps finishing in the same pass (no rank waits at the block end while others iterate:
+    # the known collective mismatch of that mode cannot occur, so the restart decisions themselves are compared)
+    for NP in (2, 3):
+        for maxr in (1, 2):
+            C.append(dict(base, MAXITER=1, NP=NP, NL=1, TEND=4 * 4 * NP, JAC=False, RFF=True, MAXR=maxr, CRASH=(NP + maxr) % 2 == 0,
+                          seed=rng.randint(0, 999), pconv=100, prs=50, pdt=0))
     C.append(dict(base, NP=3, NL=2, TEND=24, PRED='pfasst_burnin', MAXR=2, CRASH=False, seed=rng.randint(0, 999), pconv=50, prs=30, pdt=40))
     # real residuals instead of the oracle
     C.append(dict(base, NP=3, NL=1, TEND=24, MAXITER=8, oracle=False, restol=1e-6, seed=0))
